@@ -131,7 +131,7 @@ Definition readerfunc_check_gen (fixed : bool) (n : Z) (read : ty) : outcome :=
 (* THE SWITCH for the confirmed defect (DESIGN.md section 8 row 11): false = the
    code as it is in /repo (slice.go:329 indexes Out(0), Out(1) unguarded);
    true = with the proposed one-line fix. *)
-Definition readerfunc_numout_checked : bool := false.
+Definition readerfunc_numout_checked : bool := true.
 Definition readerfunc_check := readerfunc_check_gen readerfunc_numout_checked.
 
 (* slice.go:443 WriterFunc(slice, write) *)
@@ -341,3 +341,33 @@ Definition cogroup_check (U : universe) (ss : list stype) : outcome :=
       if negb (cogroup_keys_ok U keys) then Reject else
       Accept (mkS (cogroup_out keys ss) (length keys) (cogroup_numshard ss))
   end.
+
+(* ================================================================ func.go
+   FuncValue.Invocation -> FuncValue.typecheck (func.go:117-142): the
+   dynamic types of the arguments (None = an untyped nil) against the parameter
+   types of the registered function. *)
+Inductive fres := FOk | FReject | FGoPanic.
+
+(* func.go isNilAssignable: Chan, Func, Interface, Map, Ptr, Slice, UnsafePointer *)
+Definition is_nil_assignable (t : ty) : bool :=
+  match t with
+  | TSlice _ | TPtr _ | TFunc _ _ _ | TIface _ | TError | TContext => true
+  | _ => false
+  end.
+
+Fixpoint func_typecheck_loop (U : universe) (params : list ty) (args : list (option ty)) : bool :=
+  match params, args with
+  | expect :: ps, have :: hs =>
+      match have with
+      | None => if negb (is_nil_assignable expect) then false else func_typecheck_loop U ps hs
+      | Some h =>
+          if is_iface expect                         (* switch expect.Kind() { case reflect.Interface: *)
+          then (if negb (implements U h expect) then false else func_typecheck_loop U ps hs)
+          else (if negb (ty_eqb h expect) then false else func_typecheck_loop U ps hs)
+      end
+  | _, _ => true
+  end.
+
+Definition invocation_check (U : universe) (params : list ty) (args : list (option ty)) : fres :=
+  if negb (length args =? length params)%nat then FReject else
+  if func_typecheck_loop U params args then FOk else FReject.
